@@ -470,7 +470,13 @@ func (c *Conn) attach(s *Stream) {
 // returns both ends: local (to hand to the registered handler) and remote (played by the
 // monitor). The connection is created if needed.
 func (h *Host) NewInboundStream(p peer.ID, proto protocol.ID) (local *Stream, remote *End) {
-	c := h.Net.AddConn(p, network.DirInbound, nil, false)
+	// stream direction is independent of connection direction: for half of the peers (by id parity) the
+	// connection that carries their inbound streams was dialed by this host
+	dir := network.DirInbound
+	if len(p) > 0 && p[len(p)-1]&1 == 1 {
+		dir = network.DirOutbound
+	}
+	c := h.Net.AddConn(p, dir, nil, false)
 	return newStreamPair(c, network.DirInbound, proto)
 }
 
